@@ -290,6 +290,12 @@ where
     /// * Other terminating errors
     pub fn run(&mut self, mode: RunMode) -> Result<TerminatedResult, Error> {
         self.boot_root_vm_if_needed()?;
+        // When the previous run was stopped by the cycle limit after a VM had finished
+        // its iteration, +iterate_outer+ returned before +process_io+ was reached, and the
+        // scheduler might have been suspended in that state. Pending reads / writes must
+        // be processed before the next VM is chosen, or a matched reader / writer pair
+        // stays blocked forever. In all other cases there is nothing left to process.
+        self.process_io()?;
 
         let (pause, mut limit_cycles) = match mode {
             RunMode::LimitCycles(limit_cycles) => (Pause::new(), limit_cycles),
@@ -309,6 +315,8 @@ where
     /// finer tweaks are required for a single VM.
     pub fn iterate(&mut self) -> Result<IterationResult, Error> {
         self.boot_root_vm_if_needed()?;
+        // See +run+: a resumed scheduler might still have pending reads / writes.
+        self.process_io()?;
 
         if self.terminated() {
             return Ok(IterationResult {
